@@ -206,9 +206,9 @@ def _momp_contract(want_max):
             "loops": {0: {"invariant": ["0 <= i and i <= len(arr) - 1", "forall(l, 0, i, isnullv(arr[l]))"], "decreases": "len(arr) - i"},
                       1: {"iter": "enumerate(arr[i + 1:], i)", "ghost_modified": ["gw"], "invariant": ["0 <= i and i <= len(arr) - 1", "forall(l, 0, i, isnullv(arr[l]))", char("best", "(i + 1 + _it1)")]}},
             "ensures": [char("result0", "len(arr)"), f"(isnullv(result0) and forall(l, 0, len(arr), isnullv(arr[l]))) or (not isnullv(result0) and exists(l, 0, len(arr), arr[l] == result0))"]}
-def _momp_callee(want_max):
+def _momp_callee(want_max, kind="float"):
     k = _momp_contract(want_max)
-    return {"min_or_max_and_position": {"params": ["arr", "want_max"], "returns": ["float", "int"], "ghost_returns": {"gw": "int"}, "requires": k["requires"], "ensures": k["ensures"][:1]}}
+    return {"min_or_max_and_position": {"params": ["arr", "want_max"], "returns": [kind, "int"], "ghost_returns": {"gw": "int"}, "requires": k["requires"], "ensures": k["ensures"][:1]}}
 for _kind, _dt in (("float", "float64"), ("int", "int64")):
     for _wm in (True, False):
         register(NUMBA, "min_or_max_and_position", f"{_kind},want_max={_wm}", {"arr": f"arr:{_kind}:{_dt}", "want_max": f"const:{_wm}"}, _momp_contract(_wm),
@@ -279,6 +279,18 @@ for _wm in (True, False):
                   "null_value": "float", "want_max": f"const:{_wm}"}, _rmm_contract(_wm, _m, _mp), specs=_RMM_SPECS, setup=_late_chunkval, callees=_momp_callee(_wm),
                  props=("C09",) + (("C12", "C06") if _wm and not _m else ()) + (("C05",) if _m and not _wm else ()), lemma_deps=("L-nncount", "L-nnzero", "L-cnt-bound"),
                  thorough_only=(_wm == _m))         # quick: [max, no mask] and [min, mask]; thorough: all four
+
+# ---- the same kernel on int64 values with the integer null (what datetime64 / timedelta64 inputs run as): the SAME contract text with the specification symbols bound to
+#      their integer readings (Hist / X integer-valued, isnull(x) = x == MIN_INT, the order is the integer order).  Exactness for temporal values (C09 / C12): the result IS
+#      an element of the window (witness form), in the input's own integer representation.
+HistI = z3.Function("HistI", I, I, I); XIv = z3.Function("XI", I, I)
+_RMM_I = dict(_RMM_SPECS); _RMM_I.update({"HistF": HistI, "X": XIv, "isnull": lambda x: x == MIN_INT, "isnullv": lambda x: x == MIN_INT, "nn1": lambda x: z3.If(x == MIN_INT, 0, 1),
+                                          "fge": lambda a, b: a >= b, "fle": lambda a, b: a <= b})
+for _wm, _m, _mp in ((True, False, False), (False, True, True)):
+    register(NUMBA, "_rolling_max_or_min_1d", f"int,chunked,mask={'bool' if _m else 'None'},{'max' if _wm else 'min'},min_periods={'int' if _mp else 'None'}",
+             {"group_key": "arr:int:int64", "values": "chunks:int:int64", "ngroups": "int", "window": "int", "min_periods": "int" if _mp else "none", "mask": "arr:bool:bool" if _m else "none",
+              "null_value": "int", "want_max": f"const:{_wm}"}, dict(_rmm_contract(_wm, _m, _mp), array_elem={"group_buffers": "values", "current_best": "values", "out": "values"}),
+             specs=_RMM_I, setup=_late_chunkval, callees=_momp_callee(_wm, "int"), props=("C09", "C12"), lemma_deps=("L-nncount", "L-nnzero", "L-cnt-bound"), thorough_only=not _wm)
 
 # ----------------------------------------------------------------------------- EMA kernels (emas.py)
 # Specification (from the statement of C10, as the decayed-sum recursion; L-ema proves recursion == closed-form weighted mean):
@@ -521,7 +533,6 @@ for _shift in (True, False):
 
 # ---- diff on int64 values (what datetime64 / timedelta64 inputs run as: the integer view with null = MIN_INT; the result is in the input's own unit because nothing is
 #      converted: the buffers and the output are int64 arrays (array_elem) and the difference is the integer difference).  |x| <= 2^62 keeps x - y inside int64 (A-int64).
-HistI = z3.Function("HistI", I, I, I); XIv = z3.Function("XI", I, I)
 def _shi_main(m, masked):
     A = f"Cnt(k, {m})"; acc = _roll_acc(masked); prev = "HistI(group_key[r], Cnt(group_key[r], r) - window)"
     return [f"forall(k, 0, ngroups, {A} >= 0 and {A} <= {m} and 0 <= group_buffer_pos[k] and group_buffer_pos[k] < window and group_counts[k] == minw({A}, window) and implies({A} < window, group_buffer_pos[k] == {A}))",
